@@ -216,7 +216,9 @@ def oracle_sequence(case, res, cfg):
     prev_state = st
     ops = case["ops"]
     results = res["results"]
-    real = set(".".join(p) for p, _ in G.all_paths(res["tree"])) if "tree" in res else set()
+    # paths of the initial object; a None valued key is left out: new_version drops it, so it exists only until the
+    # first mutator
+    real = set(".".join(p) for p, v in G.all_paths(res["tree"]) if v["t"] != "null") if "tree" in res else set()
     for k, (op, r) in enumerate(zip(ops, results)):
         name = op["op"]
         sels = aslist(op.get("selectors"))
